@@ -88,7 +88,9 @@ func genC14(t *tape.Tape, tier string) any {
 			cd.Args = []string{[]string{".corp.example.com", ".example.org", "example.com", ".local", ".example.net"}[t.Intn(5)]}
 		case 2:
 			cd.Fn = "localHostOrDomainIs"
-			cd.Args = []string{[]string{"www.corp.example.com", "intranet.corp.example.com", "db.internal.example"}[t.Intn(3)]}
+			cd.Args = []string{[]string{"www.corp.example.com", "intranet.corp.example.com", "db.internal.example",
+				// the unqualified name occurs again further right in the qualified one
+				"db.db.internal.example", "intranet.intranet.corp.example.com", "db.eu.db.example"}[t.Intn(6)]}
 		case 3:
 			cd.Fn = "dnsDomainLevels>"
 			cd.Args = []string{fmt.Sprint(t.Intn(5))}
